@@ -270,6 +270,8 @@ def bin_case(draw):
     if draw(st.integers(0, 3)) == 0:      # the caller's own (non-uniform) bin edges
         inner = np.sort(rng.random(nbins - 1)) * TWO_PI
         edges = np.unique(np.r_[0.0, inner, TWO_PI])
+        if draw(st.booleans()) and len(edges) >= 4:
+            edges = edges[1:-1]             # bins that leave out the start and the end of the cycle
         nbins = len(edges) - 1
     weights = None
     if x.ndim == 2 and draw(st.integers(0, 3)) == 0:
